@@ -14,24 +14,6 @@ PROPS["C04"] = dict(
     scope="Step contracts of RxCtrState::{new,post_recv} (unicast encrypted, unsecured, roll-over) and GroupCtrStore::post_recv "
           "for all states and all counters; every finite history follows by induction over the step contracts.",
     verus=["dedup"],
-    kani=[
-        H("c04_new_closes_window", obligations=["C04.new.closed_at_or_below_only", "C04.new.max"]),
-        H("c04_post_recv_unicast_encrypted", obligations=[
-            "C04.unicast.accept_iff_not_seen", "C04.unicast.refusal_changes_nothing", "C04.unicast.accepted_is_closed",
-            "C04.unicast.closed_stays_closed", "C04.unicast.newer_always_accepted", "C04.unicast.older_than_window_refused",
-            "C04.unicast.exact_window"]),
-        H("c04_post_recv_unicast_unencrypted", obligations=[
-            "C04.unsecured.restart_accepted", "C04.unsecured.restart_window", "C04.unsecured.same_as_encrypted_inside",
-            "C04.unsecured.refusal_changes_nothing", "C04.unsecured.accepted_is_closed"]),
-        H("c04_post_recv_rollover", obligations=[
-            "C04.group.accept_iff_not_seen", "C04.group.refusal_changes_nothing", "C04.group.accepted_is_closed",
-            "C04.group.newer_always_accepted", "C04.group.older_than_window_refused",
-            "C04.group.closed_stays_closed_in_window", "C04.group.exact_window"]),
-        H("c04_group_store_3", kind="bounded", bound="3 of 16 tracked group senders"),
-        H("c04_group_store_full", tier="thorough"),
-        H("c04_group_store_any_len", tier="thorough"),
-        H("c04_kf_session_first_counter_zero", expect="known-finding"),
-    ],
     functions=[],
     trusted=[],
     out_of_reach=["the acknowledgement of a detected duplicate happens in async handle_rx_packet; only the cause (Err(Duplicate) exactly for refused counters) is under contract"],
@@ -44,7 +26,6 @@ PROPS["C12"] = dict(
           "epoch machine over unbounded logical positions (Verus, on the extracted real bodies). Layer B: for every schedule of reservations, "
           "stores and restarts (restart after any event) the positions handed out strictly increase and each is below the durable boundary when used.",
     verus=["checkin", "groupctr", "events"],
-    kani=[],
     functions=[],
     trusted=["assumed contract: Persist::store_tlv (Ok => durable value is the argument, Err => unchanged)",
              "assumed contract: Sessions::get_or_init_global_group_data_ctr (random seed via Crypto)",
@@ -61,7 +42,6 @@ PROPS["C16"] = dict(
           "container_next, current} + control/tag/type helpers) verified by Verus on the extracted real bodies for byte slices of ANY length: "
           "no panic, no overflow, no out-of-range access, returned slices are sub-ranges of the input, loops terminate (decreases).",
     verus=["tlvread"],
-    kani=[],
     functions=[],
     trusted=["assumed contract: TLVSequence::value_len (length-field decoding via try_into/from_le_bytes)", "assumed: TLVControl::parse is total",
              "derived Clone of TLVSequence returns an equal value; Self::EMPTY is the empty slice"],
@@ -69,3 +49,27 @@ PROPS["C16"] = dict(
                   "inputs of 2 GiB or more (i32 nesting counter horizon, stated as precondition)"],
     assumptions=[],
 )
+
+
+# ---- harness lists come from lib/harness_index.json (tools/gen_index.py scans kani/*.rs) and the named
+# ---- obligations each harness must discharge from lib/expected.json (./verif expect-update)
+import json as _json
+import os as _os
+
+_here = _os.path.dirname(_os.path.abspath(__file__))
+
+
+def _load(name):
+    p = _os.path.join(_here, name)
+    return _json.load(open(p)) if _os.path.exists(p) else {}
+
+
+INDEX = _load("harness_index.json")
+EXPECTED = _load("expected.json")
+for _pid, _P in PROPS.items():
+    _P["kani"] = []
+for _name, _h in sorted(INDEX.items()):
+    if _h["prop"] in PROPS:
+        _e = EXPECTED.get(_name, {})
+        PROPS[_h["prop"]]["kani"].append(dict(name=_name, tier=_h["tier"], kind=_h["kind"], bound=_h["bound"], expect=_h.get("expect"),
+                                              obligations=_e.get("obligations", []), covers=_e.get("covers", [])))
